@@ -168,6 +168,8 @@ impl CompactionWorker {
             .run()
             .await
             .map_err(|e| CompactorError::ZoneWriter(e.to_string()))?;
+        #[cfg(sneldb_verif)]
+        crate::verif_hooks::vpd("cp_output_written", &batch.uid_plans[0].output_segment_id.to_string());
 
         // Prepare new entries for handover
         // When multiple UIDs are compacted from the same input segments,
